@@ -5,7 +5,7 @@
    differential check decides which variant the code under test implements); the pinned tree's
    [copy_shallow] is refuted below (defect D4). *)
 From Coq Require Import List String Bool Arith.
-From Verif Require Import Base MLTable Allowlist AllowlistProofs.
+From Verif Require Import Base MLTable Allowlist AllowlistProofs AddSplit AddSplitProofs.
 Import ListNotations.
 Local Open Scope list_scope.
 Local Open Scope string_scope.
@@ -39,6 +39,38 @@ Theorem C11_instance_exact : forall h i g,
         | None => NoSuchInstance
         end).
 Proof. exact instance_exact. Qed.
+
+(* The additions as the caller writes them -- STRINGS, cut by rsplit(".", 1) in FicklingMLUnpickler.__init__
+   (model/AddSplit.v): when every addition contains a dot the constructor succeeds and the pair (m, n) is
+   permitted iff it is in the built-in table, or the text m.n was passed AND n has no dot.  So an addition
+   permits exactly one pair: not the same text cut at another dot, not its name in another module. *)
+Theorem C11_addition_strings_exact : forall adds m n,
+  (forall s, In s adds -> nodot s = false) ->
+  exists b, permits_strings adds (m, n) = Some b /\
+            (b = true <-> (in_base (m, n) = true \/ (In (m ++ "." ++ n) adds /\ nodot n = true))).
+Proof. exact permits_strings_exact. Qed.
+
+(* an addition without a dot: the constructor raises, nothing is permitted through it *)
+Theorem C11_addition_without_dot_raises : forall adds s g,
+  In s adds -> nodot s = true -> permits_strings adds g = None.
+Proof. exact no_dot_raises. Qed.
+
+Theorem C11_split_exact : forall s m n,
+  rsplit_dot s = Some (m, n) <-> (s = m ++ "." ++ n /\ nodot n = true).
+Proof. exact rsplit_exact. Qed.
+
+(* non-vacuity, and the two shapes of seeded changes C07 r4a / r4b: a two-dot addition permits
+   (collections.abc, Mapping) and not (collections, abc.Mapping), although both read "collections.abc.Mapping";
+   two additions in two unknown modules do not permit each other's names *)
+Example C11_addition_strings_nonvacuous :
+  permits_strings ["collections.abc.Mapping"] ("collections.abc", "Mapping") = Some true /\
+  permits_strings ["collections.abc.Mapping"] ("collections", "abc.Mapping") = Some false /\
+  permits_strings ["fractions.Fraction"; "decimal.Decimal"] ("fractions", "Fraction") = Some true /\
+  permits_strings ["fractions.Fraction"; "decimal.Decimal"] ("fractions", "Decimal") = Some false /\
+  permits_strings ["fractions.Fraction"; "decimal.Decimal"] ("decimal", "Fraction") = Some false /\
+  permits_strings ["fractions.Fraction"; "nodot"] ("fractions", "Fraction") = None /\
+  rsplit_dot "a." = Some ("a", "") /\ rsplit_dot ".a" = Some ("", "a") /\ rsplit_dot "" = None.
+Proof. vm_compute. repeat split. Qed.
 
 (* ---- non-vacuity: histories in which the additions matter ---- *)
 Definition np_zeros : gname := ("numpy", "zeros").
@@ -94,3 +126,6 @@ Proof. vm_compute. repeat split. Qed.
 Print Assumptions C11_permitted_exact.
 Print Assumptions C11_base_unchanged.
 Print Assumptions C11_instance_exact.
+Print Assumptions C11_addition_strings_exact.
+Print Assumptions C11_addition_without_dot_raises.
+Print Assumptions C11_split_exact.
